@@ -63,6 +63,8 @@ type model struct {
 	info    map[string]int64
 	tags    map[string]bool
 	trivial bool
+
+	poolReported bool
 }
 
 type violation struct {
@@ -442,11 +444,15 @@ func (m *model) block(h int64, ops []rop, res []harness.TxRes, after *snap) {
 	if sum.Sign() > 0 {
 		m.count("antecedent_pool_compared_with_nonzero_active_total")
 	}
-	if pool.Cmp(sum) < 0 {
+	if m.poolReported {
+		// a pool/active-set discrepancy persists until the end of the execution: report its first block only
+	} else if pool.Cmp(sum) < 0 {
+		m.poolReported = true
 		m.violate(fmt.Sprintf("C12|pool-below-active-total|op=%s|donated=%v|world=%s", name, m.donated.Sign() > 0, cls),
 			fmt.Sprintf("height %d: delegation pool holds %v, active delegations add up to %v", h, pool, sum))
 	} else if m.donated.Sign() == 0 {
 		if pool.Cmp(sum) != 0 {
+			m.poolReported = true
 			m.violate(fmt.Sprintf("C12|pool-above-active-total-without-donation|op=%s|world=%s", name, cls),
 				fmt.Sprintf("height %d: delegation pool holds %v, active delegations add up to %v, nobody donated", h, pool, sum))
 		}
